@@ -109,7 +109,12 @@ OK_STR = ["a", "b", "c", "ab", "x y", "a1", "1a", "A_b", "é"[:0] + "z9", "-", "
 
 
 def ok_names(rng, n):
-    if rng.random() < 0.5:
+    r = rng.random()
+    if r < 0.12:
+        # integers that binary floating point cannot hold exactly (beyond 2^53), neighbours that a float would merge, timestamps in ns
+        return rng.sample([2 ** 53, 2 ** 53 + 1, 2 ** 53 + 3, 9007199254740993 + 10 ** 6, 1727740800000000000, 1727740800000000001,
+                           2 ** 63 - 1, 2 ** 64 + 1, 10 ** 30 + 7, 3], n)
+    if r < 0.5:
         return rng.sample([0, 1, 2, 3, 5, 8, 10, 16, 24, 100, 12345, 7], n)
     return rng.sample(OK_STR, n)
 
